@@ -33,7 +33,7 @@ MD = "dimension-files"
 
 # labels that coincide with the dimension's own letter or look like its name (only the NAME as first cell is a header)
 OWN_LETTER = [["r", "q", "z"], ["x", "r", "y"], ["Region", "b", "c"], ["regions", "region ", "r"]]
-HOSTILE = [["EU", "NA", "SA"], ["01", "02", "10"], ["a,b", "c d", 'q"r'], ["null", "x", "y"], [" lead", "trail ", "mid dle"], ["1e3", "2e3", "abc"], ["True", "False", "maybe"]]
+HOSTILE = [["A1", "17", "B2", "2.5"], ["EU", "NA", "SA"], ["01", "02", "10"], ["a,b", "c d", 'q"r'], ["null", "x", "y"], [" lead", "trail ", "mid dle"], ["1e3", "2e3", "abc"], ["True", "False", "maybe"]]
 ALTERED_BY_CSV_INFERENCE = {"NA", "null", "NULL", "nan", "NaN", "N/A", "n/a", "", "None", "<NA>", "#N/A", "NULL", "-nan", "-NaN", "1.#IND", "1.#QNAN", "#NA", "#N/A N/A", "-1.#IND", "-1.#QNAN"}
 
 
@@ -155,6 +155,33 @@ def compare_system(rec, fd, d, mfa, route, param_truth=None, sig=""):
                 bad("parameter-values-differ-from-file", parameter=p["name"])
             if par.name != p["name"] and route != "user-written-reader":  # what a user's own reader calls its objects is the user's business
                 bad("parameter-name-attribute-differs", got=par.name, expected=p["name"])
+    # each stock, flow and parameter is "over exactly the listed dimensions": they stay so when the user edits the system's own
+    # dimension set in place afterwards (e.g. adds a scenario dimension for later use)
+    def dims_of_everything():
+        out = {}
+        for n_, st_ in mfa.stocks.items():
+            out[("stock", n_)] = (tuple(st_.dims.letters), tuple(st_.stock.dims.letters), tuple(np.shape(st_.stock.values)))
+            if hasattr(st_, "lifetime_model") and st_.lifetime_model is not None and not isinstance(st_.lifetime_model, type):
+                out[("lifetime model", n_)] = tuple(st_.lifetime_model.dims.letters)
+        for n_, f_ in mfa.flows.items():
+            out[("flow", n_)] = tuple(f_.dims.letters)
+        for n_, p_ in mfa.parameters.items():
+            out[("parameter", n_)] = tuple(p_.dims.letters)
+        return out
+
+    try:
+        before_edit = dims_of_everything()
+        probe_dim = fd.Dimension(letter="Ψ", name="added by the user later", items=["u1", "u2"])
+        mfa.dims.append(probe_dim, inplace=True)
+        try:
+            after_edit = dims_of_everything()
+        finally:
+            mfa.dims.drop("Ψ", inplace=True)
+        changed = [k_ for k_ in before_edit if before_edit[k_] != after_edit.get(k_)]
+        if changed:
+            bad("editing-the-system's-dimension-set-in-place-changed-the-dimensions-of", what=[f"{a_} {b_}" for a_, b_ in changed][:4])
+    except Exception as e:
+        bad("editing-the-system's-dimension-set-in-place-raised", exc=repr(e)[:200])
 
 
 def write_dimension_file(path, name, items, style, xlsx=False, sheet=None, decoy_sheet=False):
